@@ -145,6 +145,17 @@ func (c *compiler) write(bb *strings.Builder, i interface{}) {
 		for _, ii := range t.Value {
 			c.write(bb, ii)
 		}
+	case continueObject:
+		// a block left through continue or break (the block of a helper called
+		// in a loop body) has rendered what came before it, like one left
+		// through return
+		for _, ii := range t.Value {
+			c.write(bb, ii)
+		}
+	case breakObject:
+		for _, ii := range t.Value {
+			c.write(bb, ii)
+		}
 	}
 }
 
